@@ -439,6 +439,20 @@ def main():
             broken.append(("correspondence", f"extracted model differs from vm_compute on {len(vm['mismatches'])} cases", vm["mismatches"][0]))
         log(f"vm_compute cross-check: {vm_info}")
 
+    # ---- 4a''. translator validation: the translated functions, run by vm_compute, against the implementation's own output
+    gen_info = {}
+    if P.get("tie_groups") and builds_for_loop and not [b for b in broken if b[0] == "translator"]:
+        import gencheck
+        bname0 = builds_for_loop[0][0]
+        gc = gencheck.crosscheck(pid, cases, outs[bname0], max_cases=(120 if tier == "quick" else 1200))
+        gen_info = dict(translated_code_cases=gc["evaluated"], translated_code_mismatches=len(gc["mismatches"]), translated_code_ops=gc["ops"])
+        if gc["error"]:
+            broken.append(("correspondence", "run of the translated code (tools/gencheck.py) failed", gc["error"][-500:]))
+        elif gc["mismatches"]:
+            broken.append(("correspondence", f"translated code differs from the implementation on {len(gc['mismatches'])} cases", gc["mismatches"][0]))
+        if gc["evaluated"]:
+            log(f"translated-code run: {gen_info}")
+
     # ---- 4a. emulated NEON / simd128 builds (thorough tier): the aarch64 / wasm32 code of /repo's working tree,
     # compiled for this host with the vendor intrinsics replaced by harness/emu/*.rs, against the model's Neon / Simd128 backends
     emu_info = {}
@@ -583,6 +597,7 @@ def main():
     coverage.update(emu_info)
     coverage.update(vm_info)
     coverage.update(tie_info)
+    coverage.update(gen_info)
     if conc_info:
         coverage.update(conc_info)
     coverage.update(P.get("extra_coverage", lambda: {})())
